@@ -55,6 +55,10 @@ var chainKinds = []chainKind{
 	{"leaf-not-yet-valid", wNotYet, wValid, wWide}, {"issuer-not-yet-valid", wValid, wNotYet, wWide}, {"all-expired", wExpired, wExpired, wWide},
 	// only the trust anchor's own window is off (a re-issued or retired root): "every certificate of the chain" includes it
 	{"root-expired", wValid, wValid, wExpired}, {"root-not-yet-valid", wValid, wValid, wNotYet},
+	// the leaf has run out; its issuer was re-issued and is valid today, from a day on that lies INSIDE the leaf's window:
+	// a time stamped before that day lies inside the leaf's window and outside the issuer's
+	{"leaf-expired-issuer-reissued-later", wExpired, window{-50 * day, 100 * day}, wWide},
+	{"leaf-expired-root-reissued-later", wExpired, wValid, window{-40 * day, 3000 * day}},
 }
 
 var tsRevGotSigningTime int32
@@ -104,7 +108,7 @@ type caseT struct {
 func main() {
 	time.Local = time.FixedZone("UTC+13", 13*3600) // the process does not live in UTC
 	r := lib.Start("C06", "exploration")
-	r.Rule = "product of scheme {notary.x509, signingAuthority} x format x 8 chain window placements (leaf / issuer / trust anchor each valid around now, expired, not yet valid) x signing time (inside / before all windows; signing authority also after) x expiry {none, past, future} x tsa store listed x verifyTimestamp {unset, always, afterCertExpiry} x countersignature {absent, good, wrong message, untrusted TSA, TSA root only in a ca store, EKU missing / extra / non-critical, key usage without digitalSignature, TSA certificate that is a CA, tsa store unloadable / empty, TSA revoked / unknown / validator error, gen-time before / inside / after the windows, accuracy straddling the lower / upper window edge, accuracy just inside}; quick = x509/JWS full + the other three combinations on a covering subset, thorough = full; distinct by the tuple; non-trivial = anything but (valid chain, no expiry, no tsa store)"
+	r.Rule = "product of scheme {notary.x509, signingAuthority} x format x 10 chain window placements (leaf / issuer / trust anchor each valid around now, expired, not yet valid) x signing time (inside / before all windows; signing authority also after) x expiry {none, past, future} x tsa store listed x verifyTimestamp {unset, always, afterCertExpiry} x countersignature {absent, good, wrong message, untrusted TSA, TSA root only in a ca store, EKU missing / extra / non-critical, key usage without digitalSignature, TSA certificate that is a CA, tsa store unloadable / empty, TSA revoked / unknown / validator error, gen-time before / inside / after the windows, accuracy straddling the lower / upper window edge, accuracy just inside}; quick = x509/JWS full + the other three combinations on a covering subset, thorough = full; distinct by the tuple; non-trivial = anything but (valid chain, no expiry, no tsa store)"
 	r.Assumptions = []string{"all generated instants are >= 5 days away from now; the boundary 'expiry == now' is unreachable without a clock hook",
 		"window edges relative to a countersignature are exercised with second resolution at instants far from now",
 		"one-directional clauses ('passes only if') are judged in that direction; expiry is judged in both directions as stated"}
